@@ -35,7 +35,9 @@ Fixpoint from_field_list (hook : hook_from_t) (fs : list field) (attrs : option 
          (st : fstate) : res fstate :=
   match fs with
   | [] => Ok st
-  | f :: r => do st' <- from_field hook f attrs st; from_field_list hook r attrs st'
+  | f :: r =>
+      if fi_placeholder (f_info f) then from_field_list hook r attrs st
+      else do st' <- from_field hook f attrs st; from_field_list hook r attrs st'
   end.
 
 Definition reset_oneof (o : goval) (h : string) : res goval := gset o h (GOneof None).
@@ -54,11 +56,12 @@ Lemma from_field_go hook attrs fs : forall s,
   (fix go (l : list field) (st : fstate) {struct l} : res fstate :=
      match l with
      | [] => Ok st
-     | f :: r => do st' <- from_field hook f attrs st; go r st'
+     | f :: r => if fi_placeholder (f_info f) then go r st else do st' <- from_field hook f attrs st; go r st'
      end) fs s = from_field_list hook fs attrs s.
 Proof.
   induction fs as [|f r IH]; intros s; [reflexivity|].
-  cbn [from_field_list]. destruct (from_field hook f attrs s); [|reflexivity]. cbn [bind]. apply IH.
+  cbn [from_field_list]. destruct (fi_placeholder (f_info f)); [apply IH|].
+  destruct (from_field hook f attrs s); [|reflexivity]. cbn [bind]. apply IH.
 Qed.
 
 Lemma from_fields_unfold hook n fs os inj e z attrs st :
@@ -231,8 +234,9 @@ Lemma from_field_list_untouched hook fs attrs : forall obj ds obj' ds',
 Proof.
   induction fs as [|f r IH]; intros obj ds obj' ds' H n N; cbn [from_field_list] in H.
   - now inversion H.
-  - destruct (from_field hook f attrs (obj, ds)) as [[o1 d1]|] eqn:E; cbn [bind] in H; [|discriminate].
-    cbn [flat_map] in N. rewrite in_app_iff in N.
+  - cbn [flat_map] in N. rewrite in_app_iff in N.
+    destruct (fi_placeholder (f_info f)); [apply (IH _ _ _ _ H n); tauto|].
+    destruct (from_field hook f attrs (obj, ds)) as [[o1 d1]|] eqn:E; cbn [bind] in H; [|discriminate].
     rewrite (IH _ _ _ _ H n) by tauto. apply (from_field_untouched _ _ _ _ _ _ _ E). tauto.
 Qed.
 
@@ -428,7 +432,9 @@ Lemma from_field_list_oneof_keep hook attrs h fs : forall obj ds obj' ds',
 Proof.
   induction fs as [|f r IH]; intros obj ds obj' ds' W A H; cbn [from_field_list] in H.
   - inversion H. now subst.
-  - destruct (from_field hook f attrs (obj, ds)) as [[o1 d1]|] eqn:E; cbn [bind] in H; [|discriminate].
+  - destruct (fi_placeholder (f_info f)).
+    { apply (IH obj ds obj' ds'); [intros; apply W; now right|intros g a Hg; apply A; now right|exact H]. }
+    destruct (from_field hook f attrs (obj, ds)) as [[o1 d1]|] eqn:E; cbn [bind] in H; [|discriminate].
     rewrite (IH o1 d1 obj' ds'); [|intros; apply W; now right|intros g a Hg; apply A; now right|exact H].
     apply (from_field_oneof_keep _ _ _ _ _ _ _ _ (W f (or_introl eq_refl)) (fun O a => A f a (or_introl eq_refl) O) E).
 Qed.
@@ -490,6 +496,7 @@ Lemma from_field_list_app hook attrs l1 l2 : forall st,
   do st' <- from_field_list hook l1 attrs st; from_field_list hook l2 attrs st'.
 Proof.
   induction l1 as [|f r IH]; intros st; [reflexivity|]. cbn [app from_field_list].
+  destruct (fi_placeholder (f_info f)); [apply IH|].
   destruct (from_field hook f attrs st); [|reflexivity]. cbn [bind]. apply IH.
 Qed.
 
@@ -513,6 +520,7 @@ Qed.
 Theorem from_fields_oneof_some hook m attrs obj ds obj' ds' h pre i om post n u p :
   from_fields hook m attrs (obj, ds) = Ok (obj', ds') ->
   m_fields m = pre ++ Field i om :: post ->
+  fi_placeholder i = false ->
   fi_oneof i = Some h -> fi_kind i = PrimitiveKind -> fi_via i = [] ->
   lookup (fi_snake i) (attrs_list attrs) = Some (VPrim (fi_tk i) n u p) -> known n u = true ->
   (forall f, In f post -> oneof_only h (f_info f)) ->
@@ -521,13 +529,13 @@ Theorem from_fields_oneof_some hook m attrs obj ds obj' ds' h pre i om post n u 
   exists t, from_prim_value i n u p = Ok t /\ gfield obj' h = Ok (GOneof (Some (fi_name i, t))).
 Proof.
   destruct m as [nm fs os inj e z]. rewrite from_fields_unfold. cbn [fst snd m_fields].
-  intros H -> O K V L N W A.
+  intros H -> PH O K V L N W A.
   destruct (fold_res reset_oneof os obj) as [o1|]; cbn [bind] in H; [|discriminate].
   destruct (fold_res reset_promoted _ o1) as [o2|]; cbn [bind] in H; [|discriminate].
   destruct (fold_res reset_parent _ o2) as [o3|]; cbn [bind] in H; [|discriminate].
   rewrite from_field_list_app in H.
   destruct (from_field_list hook pre attrs (o3, ds)) as [[o4 d4]|]; cbn [bind] in H; [|discriminate].
-  cbn [from_field_list] in H.
+  cbn [from_field_list f_info] in H. rewrite PH in H.
   destruct (from_field hook (Field i om) attrs (o4, d4)) as [[o5 d5]|] eqn:E; cbn [bind] in H; [|discriminate].
   destruct (from_field_oneof_prim _ _ _ _ _ _ _ _ _ _ _ _ O K V L N E) as [t [Et G]].
   exists t. split; [exact Et|]. now rewrite (from_field_list_oneof_keep _ _ _ _ _ _ _ _ W A H).
@@ -825,6 +833,7 @@ Lemma from_field_list_total hook attrs (K : list string) l :
     exists fs' ds', from_field_list hook l attrs (GStruct fs, ds) = Ok (GStruct fs', ds') /\ keys fs' = K.
 Proof.
   induction l as [|f r IH]; intros H fs ds E; cbn [from_field_list]; [eauto|].
+  destruct (fi_placeholder (f_info f)); [apply IH; [|exact E]; intros y Hy; apply H; now right|].
   destruct (H f (or_introl eq_refl) fs ds E) as [fs1 [ds1 [-> E1]]]. cbn [bind].
   apply IH; [|exact E1]. intros y Hy. apply H. now right.
 Qed.
